@@ -2,11 +2,14 @@
 
 Case text (see harness/drivers/c11_driver.c):
   header  al|st|ll|qu <cap> [F]   |   ps <requested> <preset|-> [F]
-  ops     al: ins i d [F] | app i d [F] | rem i | find i key | clear | ens c [F]
-          st: push d [F] | pop | clear | ens c [F]
-          ll: ins p d [F] | app p d [F] | rem p | find p key | clear      (p = N for NULL or a position)
-          qu: enq d [F] | deq | clear
+  ops     al: ins i d [F] | app i d [F] | rem i [B] | find i key | clear [B] | ens c [F] | destroy [B]
+          st: push d [F] | pop [B] | clear [B] | ens c [F] | destroy [B]
+          ll: ins p d [F] | app p d [F] | rem p [B] | find p key | clear [B] | destroy [B]   (p = N for NULL or a position)
+          qu: enq d [F] | deq [B] | clear [B] | destroy [B]
           ps: ins d | rem i | get i
+  F = every malloc of that operation fails; B = the operation is called WITHOUT free-data callback (NULL: borrowed
+  data); destroy (last line only) destroys the container explicitly, otherwise it is destroyed with the callback at
+  the end of the case.  The drivers refuse every malloc above 16 MiB.
 Every op yields one line  r=<result> | <dump of the whole container> | freed=[..]
 The monitor below is a reference written directly on Python lists / dicts; it
 does not use the Coq model.
@@ -28,7 +31,13 @@ CASE_TIMEOUT = 10.0
 MODEL_CASE_TIMEOUT = 10.0
 SHRINK_BUDGET = 150
 
-RULE = ("array list: every history of insert/append/remove up to length 4 (quick) / 5 (thorough) from capacity 1 and 2 with "
+RULE = ("every operation that takes a free-data callback (remove, clear, pop, dequeue, destroy) is driven with the callback and "
+        "without it (NULL: about one third of them; exhaustive stack / queue families of length 3 / 4 over push, pop, pop-without, "
+        "clear, clear-without ending in destroy with / without callback); array list indices include INT_MIN, INT_MIN+1, INT_MAX; "
+        "pointer slot additionally: requested capacities 1000, 4097, 65535, 65536, 70000, 131072 x 5 cursor presets (slot numbers "
+        ">= 65536 handed out, 2^32 wrap) and requests 2^24 .. 2^31 (refused by the drivers' 16 MiB malloc limit) and 2^31+1 .. "
+        "UINT32_MAX (must be refused by init); "
+        "array list: every history of insert/append/remove up to length 4 (quick) / 5 (thorough) from capacity 1 and 2 with "
         "every index in [-size-1,size] at every step, each followed by find/clear; stack, queue: every op sequence up to "
         "length 6/7; linked list: every history up to length 4/5 over every node position and NULL, with and without node "
         "pool; pointer slot: every requested capacity 0..33 x counter presets {0, UINT_MAX, UINT_MAX-1, UINT_MAX-cap+1, 2^31} "
@@ -42,20 +51,34 @@ TRUSTED_BASE = [
     "represented by its capacity only; node identity (a freed node's address may be reused by the allocator; the models and "
     "both drivers number nodes by creation order)",
     "the heap-level models of linked list / queue / pointer-slot live list (coq/C11/ModelHeap.v: next/prev/data maps, one "
-    "set_next/set_prev per C pointer assignment) are hand-transcribed like every other model; they are what the extracted "
-    "model driver runs for these three containers, so the differential run compares the C code with the heap-level model",
+    "set_next/set_prev per C pointer assignment) are what the extracted model driver runs for these three containers; since "
+    "the slicer tie they are also proved equal to the C text of every run for insert / append / remove, enqueue / dequeue and "
+    "pointer-slot insert / remove (gen_ll_* / gen_qu_* / gen_ps_* obligations); clear / find / init / destroy and the array "
+    "list's / stack's clear, find, index, top remain tied by the differential run only",
+    "lib/props/c11_slice.py (clang 14 JSON AST -> Gallina, with lib/leaftrans.load_function and the vocabulary of "
+    "coq/Lib/Leaf.v, coq/C11/ModelHeap.v (upd, HEAD, TAIL, NULLP) and coq/C11/GenLib.v): node pointers are ids (&c->head = "
+    "HEAD, &c->tail = TAIL, NULL = NULLP, &c->slots[k] = k), node fields are maps, void * data are integers; the allocator "
+    "is one oracle value per call path (newp / the fresh array m1), free / pool_free of a node and calls through the "
+    "free-data callback are recorded as output lists; `if (callback)` is taken (the drivers always supply it); a counting "
+    "loop whose body is one cell-to-cell copy is summarised by its trip count, start, step and the two index offsets "
+    "(index arithmetic of the loop variable taken as mathematical: sizes are < 2^31 by MUGGLE_DS_CAP_IS_VALID), memmove / "
+    "memcpy by (destination, source, bytes / 8); a cast to a signed integer type is value-preserving; sizeof and the err.h "
+    "constants are read from `gcc -S` of the file itself (nothing is linked or run); ensure_capacity is opaque inside insert / "
+    "append / push (argument recorded, result and the fields it writes replaced by fresh arguments) and sliced on its own",
     "next_pow_of_2 is modelled as the 5-step smear of utils.c and proved to round up to a power of two for arguments <= 2^31",
     "lib/leaftrans.py (clang JSON AST -> Gallina) for the second tie of muggle_array_list_get_index; it renders the final "
     "(int) cast as value-preserving",
 ]
 ASSUMPTIONS = [
-    "array list index is an int other than INT_MIN (-index is evaluated in int by the code); sizes stay below 2^31 (enforced by MUGGLE_DS_CAP_IS_VALID)",
-    "linked list node arguments are nodes of that list (C cannot check a pointer); the free-data callback is supplied",
-    "pointer slot: requested capacity <= 2^31; cursor presets are applied to a fresh (empty) slot only",
+    "array list index is any int (INT_MIN included since fixes/C11-array-list-int-min-index.patch); sizes stay below 2^31 (enforced by MUGGLE_DS_CAP_IS_VALID)",
+    "linked list node arguments are nodes of that list (C cannot check a pointer); the free-data callback is supplied or NULL (flag cb of every operation that takes one)",
+    "pointer slot: every requested capacity of type unsigned int (init refuses above 2^31 since fixes/C11-pointer-slot-capacity-overflow.patch); cursor presets are applied to a fresh (empty) slot only",
+    "slicer tie: the number of nodes of a list / queue is below 2^64 - 1 (size + 1 does not wrap)",
 ]
 EVIDENCE_NOTES = [
-    "proved in Coq, unbounded (Properties_C11.v, 28 theorems, all closed under the global context): "
-    "al_refines_seq (every op incl. ensure_capacity/clear, every int index except INT_MIN, every state satisfying the "
+    "proved in Coq, unbounded (Properties_C11.v, 44 theorems, all closed under the global context): "
+    "al_refines_seq (every op incl. ensure_capacity/clear, every int index INT_MIN included, with and without free-data "
+    "callback - without one nothing is released and contents / size change exactly as with one -, every state satisfying the "
     "representation invariant: equals the reference list operation, or - when storage cannot be obtained - is rejected with "
     "contents, size and capacity unchanged; the two shift loops are modelled as loops and proved), al_history_refines_seq "
     "(all histories from init, any capacity, growth and malloc failures), al_get_index_is_norm_index, al_index_refines_seq, "
@@ -63,7 +86,9 @@ EVIDENCE_NOTES = [
     "models refine the reference sequence, node ids unique, size = length, node-pool capacity respected); pointer slot: "
     "ps_inv_reachable (ring segment [alloc_index, alloc_index+free) = the free slots without duplicates, free+live=capacity, "
     "free_index = alloc_index - live mod 2^32, for every requested capacity <= 2^31 and every cursor preset, i.e. across the "
-    "2^32 wrap), ps_reachable_states_invariant, ps_unique_live, ps_get_until_removed, ps_full_refuses (both directions), "
+    "2^32 wrap), ps_init_every_requested_capacity (every unsigned int request: accepted up to 2^31 in a state satisfying the "
+    "invariant with capacity >= request, refused above), ps_capacity_overflow_refuted_before_repair (witness 2^31+1 on the code "
+    "before the patch: capacity 0, first insert out of bounds), ps_reachable_states_invariant, ps_unique_live, ps_get_until_removed, ps_full_refuses (both directions), "
     "ps_double_remove_refused, ps_iter_insertion_order, ps_step_refines_spec, ps_all_capacities (no access outside slots[]/"
     "pp_slots[]), ps_all_capacities_refuted_before_repair (witness: requested 3 on the code before the patch), "
     "next_pow_of_2_rounds_up",
@@ -83,17 +108,49 @@ EVIDENCE_NOTES = [
     "prove, while a change of an accepted range or of the selected value breaks the obligation directly",
     "DESIGN.md A.3 stated free_index = alloc_index + F (mod 2^32); that is false at init (all free, both cursors equal); the "
     "proved relation is free_index = alloc_index - |live| (mod 2^32), which gives the A.3 relation modulo the capacity",
-    "covered by the differential run + monitor only (not proved): that the hand-written models (array, heap-level and "
-    "functional) are faithful transcriptions of the C text (except get_index, tied by the translator); memory_pool.c as node "
-    "pool beyond its capacity counter; free()/use-after-free of nodes (ASan); exactly-once freeing at destroy",
+    "second tie, slicer kind (lib/props/c11_slice.py, 14 obligations gen_*_eq): on every run the C text of "
+    "muggle_linked_list_insert / _append / _remove, muggle_queue_enqueue / _dequeue, muggle_pointer_slot_insert / _remove, "
+    "muggle_array_list_insert / _append / _remove / _ensure_capacity and muggle_stack_push / _pop / _ensure_capacity (with "
+    "every file-local helper they call inlined, whatever their number and shape) is symbolically executed from the clang AST "
+    "into one Gallina term per function in coq/gen/Params_C11.v: node->next / ->prev / ->data / ->in_used stores become "
+    "updates of maps Z -> Z read back through the newest version (so a read placed after the store it should precede shows "
+    "up as a different term), pp_slots[] / nodes[] are lists, cursors and sizes wrap explicitly, loops and memmove / memcpy "
+    "become lshift / lcopy / lmove / lblit with their trip count and index offsets.  coq/C11/ProofsGenHeap.v proves, for "
+    "every pair of states related by the refinement invariants (ll_inv + hl_R, qu_inv + hq_R, ps_inv: any capacity, cursors "
+    "anywhere in [0, 2^32)), every position / NULL, allocation success and failure, that the generated term yields the "
+    "return value, the next / prev / data / in_used maps (pointwise), pp_slots, cursors, size, callback data and released "
+    "node of ModelHeap.hl_insert / hl_append / hl_remove / hq_enqueue / hq_dequeue / hps_insert / hps_remove, and the err.h "
+    "codes of this run; coq/C11/ProofsGenArr.v proves that the array terms yield the storage cell by cell, capacity, size, "
+    "returned offset, the capacity asked from ensure_capacity (exactly twice the capacity exactly when size = capacity), "
+    "the size asked from malloc and the callback data of Model.al_insert / al_append / al_remove / al_ensure / st_push / "
+    "st_pop / st_ensure.  The gen side of each proof is a shape-independent decision tactic (heap_decide / ps_decide / "
+    "arr_decide: unfold, decide every conditional innermost first, compare tuples component by component, maps pointwise by "
+    "congruence, integers by time-limited lia, arrays cell by cell through the laws of coq/C11/GenLib.v); hoisted reads, "
+    "re-ordered independent stores, helpers, while / for / memmove forms keep proving, a stale read, a forgotten store, a "
+    "changed loop bound, growth factor or cursor step does not.  A construct the slicer does not know is written as a "
+    "comment into Params_C11.v and breaks the obligation (never a silent skip)",
+    "covered by the differential run + monitor only (not proved): that the hand-written models are faithful transcriptions "
+    "of the C text for the functions the two translator ties do not reach (init / destroy / clear / find / index / top / "
+    "is_empty / size of the five containers, pointer-slot get / iteration); memory_pool.c as node pool beyond its capacity "
+    "counter; free()/use-after-free of nodes (ASan); exactly-once freeing at destroy",
     "defect confirmed on the unchanged tree and repaired by fixes/C11-pointer-slot-alloc-rounded.patch (applied to /repo): "
     "pointer_slot_init sized slots[]/pp_slots[] by the requested capacity but used the rounded capacity as ring modulus and "
     "bound (1518 of 3210 quick-tier pointer-slot cases ended in an ASan heap-buffer-overflow: every requested capacity that "
     "is not a power of two)",
-    "observations outside the property's quantifier: muggle_array_list_get_index evaluates -index in int (undefined for "
-    "INT_MIN); pointer_slot_init with requested > 2^31 truncates the rounded capacity to 0; array list insert/append double "
-    "the capacity before validating the index (a refused position on a full list still grows the storage; contents and size "
-    "are unaffected)",
+    "two more genuine defects of the unchanged code under the property text, found by review (audit D3, D4), first made to fail "
+    "in the check with concrete replays and then repaired: pointer_slot_init(0x80000001) returned 0 with capacity 0 and the "
+    "first insert read outside pp_slots[] ('for every requested capacity'; replay `ps 2147483649 - / get 0`: init answered ok "
+    "with capacity 0; fixes/C11-pointer-slot-capacity-overflow.patch refuses requests above 2^31 with MUGGLE_ERR_INVALID_PARAM); "
+    "muggle_array_list_get_index negated INT_MIN in int ('invalid positions are rejected without effect'; replay `al 2 / ins "
+    "-2147483648 49`: UBSan negation of -2147483648; fixes/C11-array-list-int-min-index.patch negates in 64 bits).  The theorems "
+    "no longer exclude INT_MIN (int_ok) or requests above 2^31 (0 <= req < 2^32)",
+    "free-data callback presence is a per-operation choice in driver, model and monitor since the audit (E1: a guard `if "
+    "(func_free == NULL) return;` ahead of `size = 0` in muggle_array_list_clear went unreported because the callback was always "
+    "supplied): the models' remove / clear / pop / dequeue take the flag cb (theorems hold for both values; the reference "
+    "releases nothing when cb = false), the slicer passes the callback as the argument p_func_free, the monitor requires that "
+    "what a container lets go of is handed to the callback exactly once iff one was given and goes back to the caller otherwise",
+    "observation outside the property: array list insert/append double the capacity before validating the index (a refused "
+    "position on a full list still grows the storage; contents and size are unaffected)",
 ]
 
 TWO31 = 1 << 31
@@ -127,7 +184,9 @@ def _al_exhaustive(L, cap):
             tail = []
             for i in (-n - 1, -n, -1, 0, n - 1, n):
                 tail.append("find %d %d" % (i, 1))
-            tail += ["find 0 2", "clear"]
+            tail += ["find 0 2", "clear B" if len(out) % 3 == 1 else "clear"]
+            if len(out) % 5 == 2:
+                tail.append("destroy B" if len(out) % 2 else "destroy")
             out.append(prefix + tail)
             return
         for i in range(-n - 1, n + 1):
@@ -135,30 +194,38 @@ def _al_exhaustive(L, cap):
             for op in ("ins", "app"):
                 d = (depth + 1) * 8 + (depth % 3 + 1)
                 rec(prefix + ["%s %d %d" % (op, i, d)], n + (1 if valid_ins else 0), depth + 1, ids)
-            rec(prefix + ["rem %d" % i], n - (1 if -n <= i < n else 0), depth + 1, ids)
+            rec(prefix + ["rem %d%s" % (i, " B" if (i + depth) % 3 == 0 else "")], n - (1 if -n <= i < n else 0), depth + 1, ids)
     rec([], 0, 0, None)
     return [_case("al-ex-c%d-L%d-%d" % (cap, L, k), "al %d" % cap, ops) for k, ops in enumerate(out)]
 
 
-def _st_exhaustive(L, cap):
+def _st_exhaustive(L, cap, borrow=False):
+    """every op sequence of length L; borrow: the alphabet has the callback-less pop / clear as well and the
+    case ends with an explicit destroy (alternately with and without callback)"""
     out = []
-    for combo in itertools.product(("push", "pop", "clear", "pushF"), repeat=L):
+    alpha = ("push", "pop", "pop B", "clear", "clear B") if borrow else ("push", "pop", "clear", "pushF")
+    for combo in itertools.product(alpha, repeat=L):
         ops = []
         for k, o in enumerate(combo):
             d = (k + 1) * 8 + 1
             ops.append("push %d" % d if o == "push" else ("push %d F" % d if o == "pushF" else o))
-        out.append(_case("st-ex-c%d-L%d-%d" % (cap, L, len(out)), "st %d" % cap, ops))
+        if borrow:
+            ops.append("destroy B" if len(out) % 2 else "destroy")
+        out.append(_case("st-ex%s-c%d-L%d-%d" % ("b" if borrow else "", cap, L, len(out)), "st %d" % cap, ops))
     return out
 
 
-def _qu_exhaustive(L, cap):
+def _qu_exhaustive(L, cap, borrow=False):
     out = []
-    for combo in itertools.product(("enq", "deq", "clear", "enqF"), repeat=L):
+    alpha = ("enq", "deq", "deq B", "clear", "clear B") if borrow else ("enq", "deq", "clear", "enqF")
+    for combo in itertools.product(alpha, repeat=L):
         ops = []
         for k, o in enumerate(combo):
             d = (k + 1) * 8 + 1
             ops.append("enq %d" % d if o == "enq" else ("enq %d F" % d if o == "enqF" else o))
-        out.append(_case("qu-ex-c%d-L%d-%d" % (cap, L, len(out)), "qu %d" % cap, ops))
+        if borrow:
+            ops.append("destroy B" if len(out) % 2 else "destroy")
+        out.append(_case("qu-ex%s-c%d-L%d-%d" % ("b" if borrow else "", cap, L, len(out)), "qu %d" % cap, ops))
     return out
 
 
@@ -167,14 +234,16 @@ def _ll_exhaustive(L, cap):
 
     def rec(prefix, n, depth):
         if depth == L:
-            out.append(prefix + ["find N 1", "find N 2"] + (["find %d 1" % (n - 1)] if n else []) + ["clear"])
+            k = len(out)
+            out.append(prefix + ["find N 1", "find N 2"] + (["find %d 1" % (n - 1)] if n else []) +
+                       (["destroy B" if k % 2 else "destroy"] if k % 4 == 3 else ["clear B" if k % 3 == 1 else "clear"]))
             return
         d = (depth + 1) * 8 + (depth % 2 + 1)
         for p in ["N"] + list(range(n)):
             rec(prefix + ["ins %s %d" % (p, d)], n + 1, depth + 1)
             rec(prefix + ["app %s %d" % (p, d)], n + 1, depth + 1)
         for p in range(n):
-            rec(prefix + ["rem %d" % p], n - 1, depth + 1)
+            rec(prefix + ["rem %d%s" % (p, " B" if (p + depth) % 3 == 0 else "")], n - 1, depth + 1)
     rec([], 0, 0)
     return [_case("ll-ex-c%d-L%d-%d" % (cap, L, k), "ll %d" % cap, ops) for k, ops in enumerate(out)]
 
@@ -241,7 +310,16 @@ def _ps_exhaustive(L, req, pre):
 
 
 def _far_index(rng, n):
-    return rng.choice([n + 1, -n - 2, 1000, -1000, TWO31 - 1, -(TWO31 - 1), n + 7, -n - 9])
+    return rng.choice([n + 1, -n - 2, 1000, -1000, TWO31 - 1, -(TWO31 - 1), -TWO31, n + 7, -n - 9])
+
+
+def _borrow(rng):
+    """every third callback-taking operation is called without callback"""
+    return " B" if rng.chance(1, 3) else ""
+
+
+def _destroy(rng):
+    return rng.choice([[], ["destroy"], ["destroy B"]])
 
 
 def _rand_al(rng, name, nops):
@@ -264,17 +342,17 @@ def _rand_al(rng, name, nops):
             if (valid or (n == 0 and i in (0, -1))) and not fail:
                 n += 1
         elif r < grow_bias + 22:
-            ops.append("rem %d" % i)
+            ops.append("rem %d%s" % (i, _borrow(rng)))
             if valid:
                 n -= 1
         elif r < grow_bias + 30:
             ops.append("find %d %d" % (i, rng.range(0, 5)))
         elif r < grow_bias + 32:
-            ops.append("clear")
+            ops.append("clear" + _borrow(rng))
             n = 0
         else:
             ops.append("ens %d%s" % (rng.choice([0, 1, n, n + 1, 2 * n + 3, 40, TWO31, TWO31 + 5]), fail))
-    return _case(name, "al %d" % cap, ops)
+    return _case(name, "al %d" % cap, ops + _destroy(rng))
 
 
 def _rand_st(rng, name, nops):
@@ -288,12 +366,12 @@ def _rand_st(rng, name, nops):
         if r < bias:
             ops.append("push %d%s" % (0 if rng.chance(1, 30) else ids.new(), fail))
         elif r < bias + 33:
-            ops.append("pop")
+            ops.append("pop" + _borrow(rng))
         elif r < bias + 36:
-            ops.append("clear")
+            ops.append("clear" + _borrow(rng))
         else:
             ops.append("ens %d%s" % (rng.choice([0, 1, 9, 33, 100, TWO31]), fail))
-    return _case(name, "st %d" % cap, ops)
+    return _case(name, "st %d" % cap, ops + _destroy(rng))
 
 
 def _rand_ll(rng, name, nops):
@@ -312,16 +390,16 @@ def _rand_ll(rng, name, nops):
                 n += 1 if not fail else 0
         elif r < bias + 25:
             if n > 0:
-                ops.append("rem %d" % rng.below(n))
+                ops.append("rem %d%s" % (rng.below(n), _borrow(rng)))
                 n -= 1
         elif r < bias + 33:
             ops.append("find %s %d" % (p, rng.range(0, 5)))
         elif r < bias + 35:
-            ops.append("clear")
+            ops.append("clear" + _borrow(rng))
             n = 0
         else:
             ops.append("rem %d" % (n + rng.below(2)))     # invalid position: both drivers answer badpos
-    return _case(name, "ll %d" % cap, ops)
+    return _case(name, "ll %d" % cap, ops + _destroy(rng))
 
 
 def _rand_qu(rng, name, nops):
@@ -335,10 +413,10 @@ def _rand_qu(rng, name, nops):
         if r < bias:
             ops.append("enq %d%s" % (0 if rng.chance(1, 30) else ids.new(), fail))
         elif r < bias + 40:
-            ops.append("deq")
+            ops.append("deq" + _borrow(rng))
         else:
-            ops.append("clear")
-    return _case(name, "qu %d" % cap, ops)
+            ops.append("clear" + _borrow(rng))
+    return _case(name, "qu %d" % cap, ops + _destroy(rng))
 
 
 def _rand_ps(rng, name, nops):
@@ -359,6 +437,44 @@ def _rand_ps(rng, name, nops):
     return _case(name, "ps %d %s" % (req, pre), ops)
 
 
+PS_MALLOC_OK = 524288      # the drivers refuse mallocs above 16 MiB: 32 + 8 bytes per (rounded) entry
+PS_BIG = [1000, 4097, 65535, 65536, 70000, 131072]
+
+
+def _ps_big(rng):
+    """one family of capacities far above what the unit tests use: slot numbers >= 65536 are handed out
+    (cursor presets put the first allocation there), the ring is crossed at the 2^32 wrap of the cursors"""
+    out = []
+    for req in PS_BIG:
+        cap = _pow2_ceil(req)
+        for pi, pre in enumerate(["-", str(UMAX), str(cap - 1), str((UMAX - 2) & UMAX), str(cap + cap // 2 + 7)]):
+            ops, d = [], 0
+            for _ in range(5):
+                d += 1
+                ops.append("ins %d" % d)
+            first = 0 if pre == "-" else int(pre) % cap
+            got = [(first + k) % cap for k in range(5)]
+            ops += ["get %d" % got[0], "get %d" % got[4], "rem %d" % got[1], "rem %d" % got[1], "get %d" % got[1],
+                    "rem %d" % cap, "rem %d" % (cap - 1 if (cap - 1) not in got else cap + 1), "get %d" % (cap - 1), "get %d" % cap,
+                    "get %d" % UMAX]
+            for _ in range(3):
+                d += 1
+                ops.append("ins %d" % d)
+            ops += ["rem %d" % got[0], "rem %d" % got[4], "ins %d" % (d + 1)]
+            out.append(_case("ps-big%d-pre%d" % (req, pi), "ps %d %s" % (req, pre), ops))
+    return out
+
+
+def _ps_limits():
+    """requested capacities around 2^31 and up to UINT32_MAX: above 2^31 the next power of two does not fit an
+    unsigned int and init must refuse; the valid ones here are too big for the drivers' malloc limit and must fail
+    cleanly; nothing may be touched afterwards"""
+    out = []
+    for req in (1 << 24, (1 << 24) + 1, (1 << 30) - 1, 1 << 30, TWO31 - 1, TWO31, TWO31 + 1, TWO31 + 2, 3 << 30, UMAX - 1, UMAX):
+        out.append(_case("ps-limit-%d" % req, "ps %d -" % req, ["ins 1", "get 0", "rem 0"]))
+    return out
+
+
 LEAVES = [("muggle/c/dsaa/array_list.c", "muggle_array_list_get_index")]
 
 
@@ -368,16 +484,24 @@ def gen_params(ctx):
     al_get_index, so an edit of the index normalisation breaks a proof obligation directly."""
     import os
     import leaftrans as L
+    from props import c11_slice as S
     V.gen_config_header()
     flags = ["-std=gnu11", "-I" + V.REPO, "-I" + V.GEN_INC, "-DNDEBUG"]
-    out = ["(* generated by lib/props/c11.py + lib/leaftrans.py from the C text of muggle/c/dsaa/array_list.c on this run; do not edit *)",
-           "From MV Require Import Lib.Leaf.", "Local Open Scope Z_scope.", ""]
+    out = ["(* generated by lib/props/c11.py + lib/leaftrans.py + lib/props/c11_slice.py from the C text of "
+           "muggle/c/dsaa/{array_list,stack,linked_list,queue}.c and muggle/c/memory/pointer_slot.c on this run; do not edit *)",
+           "From MV Require Import Lib.Leaf C11.ModelHeap C11.GenLib.", "Local Open Scope Z_scope.", ""]
     for src, name in LEAVES:
         try:
             out.append(L.translate(os.path.join(V.REPO, src), name, flags)[0])
         except L.LeafError as e:
             out.append("(* translator error for %s: %s *)\n" % (name, e))
-    return "\n".join(out)
+    # the pointer-splicing / cursor / index-range code (DESIGN.md 4.4, second tie of the slicer kind): a function that
+    # cannot be translated is written as a comment, which breaks its gen_*_matches_model obligation
+    try:
+        out.append(S.translate_all(V.REPO, flags))
+    except Exception as e:      # a broken AST must break the obligations, not the machinery
+        out.append("(* slicer failure: %s: %s *)\n" % (type(e).__name__, str(e)[:300].replace("*)", "* )")))
+    return "\n".join(out) + "\n"
 
 
 def _corpus_files():
@@ -395,6 +519,18 @@ def corpus_cases(ctx):
         _case("corpus-al-boundaries", "al 1", ["ins 0 9", "ins -1 17", "ins -3 25", "ins 2 33", "app -2 41", "app 1 49", "rem -3",
                                                "rem 3", "rem 2", "find -2 1", "ins -2 57", "clear", "app -1 65", "rem -1", "rem 0"]),
         _case("corpus-al-capinvalid", "al %d" % TWO31, ["ins 0 9"]),
+        # every int is an index: INT_MIN (its negation does not exist in int), INT_MIN + 1, INT_MAX are invalid positions
+        _case("corpus-al-int-limits", "al 2", ["ins 0 9", "ins -1 17", "ins %d 25" % -TWO31, "app %d 33" % -TWO31, "rem %d" % -TWO31,
+                                               "find %d 1" % -TWO31, "rem %d B" % (-TWO31 + 1), "ins %d 41" % (TWO31 - 1),
+                                               "find %d 1" % (TWO31 - 1), "rem %d" % (TWO31 - 1), "clear B", "ins %d 49" % -TWO31]),
+        # callback-less operations: nothing is released, the effect on the container is the same
+        _case("corpus-al-borrowed", "al 1", ["ins 0 9", "ins 0 17", "rem 0 B", "clear B", "ins 0 25", "rem 0", "ins 0 33", "destroy B"]),
+        _case("corpus-st-borrowed", "st 1", ["push 9", "push 17", "pop B", "push 25", "clear B", "push 33", "pop", "push 41", "destroy B"]),
+        _case("corpus-ll-borrowed", "ll 0", ["ins N 9", "app N 17", "rem 0 B", "app N 25", "clear B", "ins N 33", "rem 0", "app N 41", "destroy B"]),
+        _case("corpus-qu-borrowed", "qu 0", ["enq 9", "enq 17", "deq B", "enq 25", "clear B", "enq 33", "deq", "enq 41", "destroy B"]),
+        # a request above 2^31: the next power of two (2^32) does not fit the unsigned int capacity
+        _case("corpus-ps-cap-overflow", "ps %d -" % (TWO31 + 1), ["ins 1", "get 0"]),
+        _case("corpus-ps-cap-65536-slot", "ps 70000 70000", ["ins 1", "ins 2", "get 70000", "rem 70000", "rem 70000", "get 70001"]),
         _case("corpus-st-grow", "st 1", ["push 9", "push 17", "push 25 F", "push 33", "pop", "pop", "pop", "pop", "push 0", "pop"]),
         _case("corpus-ll-pool", "ll 1", ["ins N 9", "app N 17", "ins 1 25", "app 0 33", "rem 0", "rem 2", "find N 1", "clear", "app N 41"]),
         _case("corpus-qu-pool", "qu 1", ["enq 9", "enq 17", "enq 25 F", "deq", "enq 33", "deq", "deq", "deq"]),
@@ -418,7 +554,12 @@ def generate(rng, tier):
         for L in ((1, 2, 3) if quick else (1, 2, 3, 4)):
             cases += _ll_exhaustive(L, cap)
     cases += _ll_exhaustive(4 if quick else 5, 1)
+    for cap in (1, 0):
+        cases += _st_exhaustive(3 if quick else 4, cap, borrow=True)
+        cases += _qu_exhaustive(3 if quick else 4, cap, borrow=True)
     cases += _ps_scripts(rng.fork("ps-scripts"))
+    cases += _ps_big(rng.fork("ps-big"))
+    cases += _ps_limits()
     for req, pre in ((1, "-"), (2, str(UMAX)), (3, str(UMAX - 1)), (4, str(UMAX))):
         cases += _ps_exhaustive(4 if quick else (6 if req <= 2 else 5), req, pre)
     nrand = 40 if quick else 500
@@ -481,6 +622,15 @@ def _strip_fail(ws):
     return ws, False
 
 
+def _strip_flags(ws):
+    """-> (words, malloc fails, callback supplied)"""
+    if ws and ws[-1] == "F":
+        return ws[:-1], True, True
+    if ws and ws[-1] == "B":
+        return ws[:-1], False, False
+    return ws, False, True
+
+
 def _x(v):
     return "X" if v is None else str(v)
 
@@ -522,24 +672,34 @@ def _monitor(case, lines):
             _expect(lines[0] == "init fail", "init with capacity %d%s answered %r, expected failure" % (cap, " under malloc failure" if hfail else "", lines[0]))
             return None
         _expect(lines[0].startswith("init ok | "), "init answered %r, expected success" % lines[0])
-        _expect(len(lines) == len(ops) + 2, "expected %d output lines, got %d" % (len(ops) + 2, len(lines)))
+        explicit = bool(ops) and ops[-1].split()[0] == "destroy"
+        nlines = len(ops) + (1 if explicit else 2)
+        _expect(len(lines) == nlines, "expected %d output lines, got %d" % (nlines, len(lines)))
         mon = {"al": _MonAL, "st": _MonST, "ll": _MonLL, "qu": _MonQU}[kind](cap)
         mon.check_dump(lines[0].split(" | ", 1)[1], "init")
-        for k, (ol, rl) in enumerate(zip(ops, lines[1:-1]), 1):
+        for k, (ol, rl) in enumerate(zip(ops, lines[1:len(ops) + 1]), 1):
             parts = _split_line(rl)
             _expect(len(parts) == 3, "op %d (%s): malformed output %r" % (k, ol, rl))
             _expect("BADPOOL" not in parts[2], "op %d (%s): free callback got a wrong pool argument" % (k, ol))
             freed = [int(x) for x in _plist(parts[2].split("=", 1)[1])]
-            ws, fail = _strip_fail(ol.split())
+            ws, fail, cb = _strip_flags(ol.split())
             where = "op %d (%s)" % (k, ol)
+            if ws[0] == "destroy":
+                _expect(k == len(ops), "%s: destroy is not the last operation" % where)
+                _expect(parts[0] == "r=-" and parts[1] == "destroyed", "%s: %r" % (where, rl))
+                rest = sorted(d for d in mon.remaining() if d != 0)
+                mon.released(freed, rest, cb, where, exact_order=False)
+                break
+            mon.cb = cb
             mon.op(ws, fail, parts[0], freed, where)
             mon.check_dump(parts[1], where)
-        endl = lines[-1]
-        _expect(endl.startswith("end freed="), "missing end line: %r" % endl)
-        _expect("BADPOOL" not in endl, "destroy: free callback got a wrong pool argument")
-        freed = [int(x) for x in _plist(endl.split("=", 1)[1])]
-        mon.freed_now(freed, sorted(d for d in mon.remaining() if d != 0), "destroy", exact_order=False)
-        _expect(not mon.owned, "data never handed to the free callback: %s" % sorted(mon.owned)[:8])
+        if not explicit:
+            endl = lines[-1]
+            _expect(endl.startswith("end freed="), "missing end line: %r" % endl)
+            _expect("BADPOOL" not in endl, "destroy: free callback got a wrong pool argument")
+            freed = [int(x) for x in _plist(endl.split("=", 1)[1])]
+            mon.released(freed, sorted(d for d in mon.remaining() if d != 0), True, "destroy", exact_order=False)
+        _expect(not mon.owned, "data neither handed to the free callback nor given back to the caller: %s" % sorted(mon.owned)[:8])
         return None
     if kind == "ps":
         return _monitor_ps(hw, hfail, ops, lines)
@@ -559,6 +719,17 @@ class _Own:
         if d in self.owned:
             self.dups = True
         self.owned.add(d)
+
+    cb = True      # the operation being checked was given a free-data callback
+
+    def released(self, got, expected, cb, where, exact_order=True):
+        """what the container lets go of: with a callback it is handed to it exactly once, in order; without
+        one (borrowed data) the callback log must stay empty and the data go back to the caller"""
+        if cb:
+            return self.freed_now(got, expected, where, exact_order)
+        _expect(got == [], "%s: called without free-data callback, yet a callback received %s" % (where, got))
+        for d in expected:
+            self.owned.discard(d)
 
     def freed_now(self, got, expected, where, exact_order=True):
         if exact_order:
@@ -645,7 +816,7 @@ class _MonAL(_Own):
         else:
             exp = "r=?"
         _expect(res == exp, "%s: returned %s, reference sequence says %s (size %d)" % (where, res, exp, n))
-        self.freed_now(freed, exp_freed, where)
+        self.released(freed, exp_freed, self.cb, where)
 
     def check_dump(self, dump, where):
         f = _fields(dump)
@@ -714,7 +885,7 @@ class _MonST(_Own):
         else:
             exp = "r=?"
         _expect(res == exp, "%s: returned %s, reference stack says %s (size %d)" % (where, res, exp, n))
-        self.freed_now(freed, exp_freed, where)
+        self.released(freed, exp_freed, self.cb, where)
 
     def check_dump(self, dump, where):
         f = _fields(dump)
@@ -794,7 +965,7 @@ class _MonLL(_Own):
             exp_freed = [d for _, d in L if d != 0]
             self.L = []
             _expect(res == "r=-", "%s: %s" % (where, res))
-        self.freed_now(freed, exp_freed, where)
+        self.released(freed, exp_freed, self.cb, where)
 
     def check_dump(self, dump, where):
         f = _fields(dump)
@@ -831,13 +1002,16 @@ class _MonQU(_MonLL):
             exp_freed = [d for _, d in L if d != 0]
             self.L = []
             _expect(res == "r=-", "%s: %s" % (where, res))
-        self.freed_now(freed, exp_freed, where)
+        self.released(freed, exp_freed, self.cb, where)
 
 
 def _monitor_ps(hw, hfail, ops, lines):
     req = int(hw[1])
-    if hfail:
-        _expect(lines[0] == "init fail", "init under malloc failure answered %r" % lines[0])
+    if hfail or req > TWO31 or req > PS_MALLOC_OK:
+        why = "under malloc failure" if hfail else ("for a request above 2^31 (its power of two does not fit an unsigned int)"
+                                                    if req > TWO31 else "with more than the drivers' malloc limit")
+        _expect(lines[0] == "init fail", "init %s answered %r, expected refusal" % (why, lines[0][:60]))
+        _expect(all(ln == "nocontainer" for ln in lines[1:]), "operations after a refused init: %r" % lines[1:3])
         return None
     _expect(lines[0].startswith("init ok | "), "init answered %r, expected success" % lines[0])
     _expect(len(lines) == len(ops) + 1, "expected %d output lines, got %d" % (len(ops) + 1, len(lines)))
@@ -857,8 +1031,12 @@ def _monitor_ps(hw, hfail, ops, lines):
         _expect(_plist(f["it"]) == exp, "%s: iteration gave %s, insertion order of live entries is %s" % (where, f["it"], ",".join(exp)))
         _expect(f["bw"] == "ok", "%s: backward walk / prev-next links inconsistent" % where)
         g = _plist(f["get"])
-        eg = [str(live[i]) if i in live else "X" for i in range(cap + 2)]
-        _expect(g == eg, "%s: get over 0..capacity+1 gave %s, reference %s" % (where, ",".join(g), ",".join(eg)))
+        if cap <= 4096:
+            eg = [str(live[i]) if i in live else "X" for i in range(cap + 2)]
+        else:       # big slot: probes 0..15, every live index, capacity-2..capacity+1, printed as i=value
+            probes = list(range(16)) + list(live.keys()) + [cap - 2, cap - 1, cap, cap + 1]
+            eg = ["%d=%s" % (i, live[i] if i in live else "X") for i in probes]
+        _expect(g == eg, "%s: get probes gave %s, reference %s" % (where, ",".join(g[:40]), ",".join(eg[:40])))
 
     check_dump(lines[0].split(" | ", 1)[1], "init")
     for k, (ol, rl) in enumerate(zip(ops, lines[1:]), 1):
@@ -919,6 +1097,8 @@ def tally(dist, case, lines):
     rej = sum(1 for ln in lines if ln.startswith(("r=X", "r=0 ", "r=full", "r=dup", "r=range")))
     dist["refused_ops"] = dist.get("refused_ops", 0) + rej
     dist["malloc_failures_injected"] = dist.get("malloc_failures_injected", 0) + sum(1 for ln in case.lines if ln.endswith(" F"))
+    dist["ops_without_callback"] = dist.get("ops_without_callback", 0) + sum(1 for ln in case.lines if ln.endswith(" B"))
+    dist["explicit_destroy"] = dist.get("explicit_destroy", 0) + sum(1 for ln in case.lines if ln.startswith("destroy"))
     if kind in ("al", "st") and len(lines) > 1:
         caps = set()
         mx = 0
@@ -937,7 +1117,10 @@ def tally(dist, case, lines):
         dist[b] = dist.get(b, 0) + 1
     if kind == "ps":
         w = case.lines[0].split()
-        dist["ps_requested=%s" % (w[1] if int(w[1]) <= 33 else "34+")] = dist.get("ps_requested=%s" % (w[1] if int(w[1]) <= 33 else "34+"), 0) + 1
+        rq = int(w[1])
+        key = "ps_requested=%s" % (w[1] if rq <= 33 else ("34-255" if rq <= 255 else ("256-131072" if rq <= 131072 else
+                                                                                     ("2^24..2^31" if rq <= TWO31 else ">2^31"))))
+        dist[key] = dist.get(key, 0) + 1
         if len(w) > 2 and w[2] not in ("-", "0", "F"):
             dist["ps_preset_cursors"] = dist.get("ps_preset_cursors", 0) + 1
 
@@ -952,12 +1135,14 @@ MANIFEST = {
                    "refusal of double removal, iteration in insertion order and in-bounds array accesses; heap-level models "
                    "(explicit prev/next maps, sentinels, the C pointer assignments in order) of linked list, queue and the "
                    "pointer-slot live list refine the sequence models (well-formed acyclic chain, forward walk = reverse of "
-                   "backward walk = abstract sequence); muggle_array_list_get_index re-translated from the C text on every run "
-                   "and proved equal to the model.  Models tied to the "
+                   "backward walk = abstract sequence); muggle_array_list_get_index (leaf translator) and the pointer-splicing, "
+                   "cursor, growth and index-range code of insert / append / remove / enqueue / dequeue / push / pop / "
+                   "ensure_capacity / pointer-slot insert and remove (slicer, 14 functions) are re-translated from the C text on "
+                   "every run and proved equal to the models.  Models tied to the "
                    "C code by a differential run (extracted OCaml model vs. ASan/UBSan build of the working tree, whole-"
                    "container dump after every op) plus an independent Python list/dict monitor with an ownership map."),
     "design_ref": "DESIGN.md section 6 / C11, Appendix A.3",
-    "level_note": ("Trusted: Coq kernel, extraction (ExtrOcamlBasic), the differential harness, the leaf translator.  Pointer "
+    "level_note": ("Trusted: Coq kernel, extraction (ExtrOcamlBasic), the differential harness, the leaf translator and the C11 slicer.  Pointer "
                    "splicing of linked list / queue / pointer-slot live list is modelled at heap level (prev/next maps, assignment "
                    "by assignment) and proved to refine the sequence models; malloc is an oracle."),
     "technique": "Coq refinement proofs (induction over op lists, ring invariant) + extracted-model differential run under ASan + independent monitor",
